@@ -6,6 +6,7 @@ mod consts;
 mod consts_more;
 mod c03;
 mod c04;
+mod c08;
 mod c17;
 mod c18;
 mod c18_wdt;
@@ -61,6 +62,7 @@ fn main() {
             match prop.as_str() {
                 "C03" => c03::run(&mut ctx),
                 "C04" => c04::run(&mut ctx),
+                "C08" => c08::run(&mut ctx),
                 "C17" => c17::run(&mut ctx),
                 "C18" => c18::run(&mut ctx),
                 _ => {
